@@ -1272,8 +1272,11 @@ pub fn diff_case(case: &Case, stats: Option<&Stats>) -> Result<Vec<String>, Stri
     if out.is_empty() && ra.trace.len() != rb.trace.len() {
         out.push(format!("[diff_length] sync produced {} observations, async {}", ra.trace.len(), rb.trace.len()));
     }
-    // the async flavour must satisfy the model-based predicates too
-    for f in rb.failures.iter() {
+    // the async flavour must satisfy the model-based predicates too (over colliding key tables the
+    // model speaks for C18 only - D9 -, there the two traces are all that is compared; a trace line
+    // that reports a predicate failure is still compared like any other observation)
+    let collide = has_index_collisions(case);
+    for f in rb.failures.iter().filter(|_| !collide) {
         out.push(format!("[async:{}] step {}: {}", f.pred, f.step, f.msg));
         break;
     }
@@ -1284,7 +1287,20 @@ pub fn run_diff_check(tier: &str, seed: u64, stats: &Stats) -> CheckOutcome {
     let n = if tier_is_thorough(tier) { 150_000 } else { 8000 };
     let prof = diff_profile();
     let harness_err: parking_lot::Mutex<Option<String>> = parking_lot::Mutex::new(None);
-    let res = run_prop(|| case_strategy(&prof), n, seed, 16, stats, |case| match diff_case(case, Some(stats)) {
+    // a fifth of the cases over key tables in which pairs of keys share an index hash (distinct
+    // conflict hashes): whatever the library does with colliding keys, both flavours do the same
+    let collide = {
+        let mut p = diff_profile();
+        p.layout = Layout::Collide;
+        p.keys = (2, 6);
+        p.defaults_pct = 0;
+        p.w.getttl = 8;
+        p.w.getmut = 6;
+        p.w.remove = 12;
+        p
+    };
+    let mk = || proptest::strategy::Union::new_weighted(vec![(4u32, case_strategy(&prof)), (1u32, case_strategy(&collide))]).boxed();
+    let res = run_prop(mk, n, seed, 16, stats, |case| match diff_case(case, Some(stats)) {
         Err(h) => {
             *harness_err.lock() = Some(h);
             Ok(())
